@@ -115,14 +115,17 @@ class Flow:
         self.cg = cg
         self._defs_cache: Dict[int, Dict[str, List[Tuple[str, ast.AST, Any]]]] = {}
         self._stores_cache: Optional[Dict[str, List[Tuple[FunctionInfo, ast.AST, str, Any]]]] = None
+        self._stop: Set[FunctionInfo] = set()
 
     # ================================================================== public
     def slice(self, fn: FunctionInfo, expr: ast.AST, scope: Iterable[FunctionInfo],
-              roots: Iterable[FunctionInfo] = (), path: Path = (), max_states: int = 60000) -> SliceResult:
+              roots: Iterable[FunctionInfo] = (), path: Path = (), max_states: int = 60000,
+              stop_at: Iterable[FunctionInfo] = ()) -> SliceResult:
         """backward slice of `expr` (evaluated in fn).  `scope`: functions whose stores / call sites count;
         `roots`: functions whose parameters are leaves (the entry points)."""
         scope_set = set(scope)
         root_set = set(roots)
+        self._stop = set(stop_at)
         res = SliceResult()
         seen: Set[Tuple[Any, ...]] = set()
         work: List[Tuple[FunctionInfo, Any, Path, Tuple[CallSite, ...], Tuple[Any, ...]]] = [(fn, expr, path, (), ())]
@@ -143,12 +146,13 @@ class Flow:
         return res
 
     def slice_field(self, classes: List[ClassInfo], attr: str, scope: Iterable[FunctionInfo],
-                    roots: Iterable[FunctionInfo] = (), path: Path = ()) -> SliceResult:
+                    roots: Iterable[FunctionInfo] = (), path: Path = (),
+                    stop_at: Iterable[FunctionInfo] = ()) -> SliceResult:
         """slice of the heap field `attr` of objects of the given classes (as stored within `scope`)"""
         if not classes:
             raise AnalysisError(f"slice_field: no class for field {attr}")
         fn = classes[0].module.body_fn
-        return self.slice(fn, ("heap", tuple(classes), attr), scope, roots, path)
+        return self.slice(fn, ("heap", tuple(classes), attr), scope, roots, path, stop_at=stop_at)
 
     # ================================================================== one backward step
     def _step(self, f, node, p, ctx, post, scope, roots, res, call_seen):
@@ -674,6 +678,10 @@ class Flow:
             call_seen.add(id(site))
             res.calls.append(site)
         func = node.func
+        # ---- barrier: do not look through these callees
+        if site.callees and self._stop and all(c in self._stop for c in site.callees):
+            res.leaves.add(Leaf("barrier", site.callees[0].short.split(":")[-1].split(".")[-1], (), post))
+            return
         # ---- repo callees
         if site.callees:
             for c in site.callees:
